@@ -157,7 +157,7 @@ func c04NT(call string) bool {
 func TestC04(t *testing.T) {
 	r := StartRun(t, "C04")
 	defer r.Finish()
-	r.Extra("rule", "exhaustive product: signatures over <=2 positional (with/without default), *a, <=2 keyword-only (with/without default), **k (168 signatures, as def, method, lambda, decorated def and def behind a forwarding decorator) "+
+	r.Extra("rule", "exhaustive product: signatures over <=2 positional (with/without default), *a, <=2 keyword-only (with/without default), **k (168 signatures, as def, method, lambda, decorated def, def behind a forwarding decorator and def whose parameters are all captured by an inner scope) "+
 		"x call shapes with <=3 positionals, every subset of keyword names {p1,p2,k1,k2,zz}, *seq of length 0-2, **map of 6 kinds (3072 shapes); quick runs a seeded third of the signatures. "+
 		"Plus Go callables of the four signatures reached as module function, through an instance and through the class. Oracle: CPython for Python functions; generator-computed "+
 		"expectation for Go callables. Non-trivial: the call mixes >=2 argument kinds (or is rejected); distinct by (signature, call).")
@@ -178,9 +178,9 @@ func TestC04(t *testing.T) {
 		if sw := s.switchName(); sw != "" && !r.On(sw) {
 			continue
 		}
-		forms := []int{si % 5}
+		forms := []int{(si / 3) % 6} // si/3: the quick tier keeps every third signature, so si%6 would fix the form
 		if r.Thorough() {
-			forms = []int{0, 1, 2, 3, 4}
+			forms = []int{0, 1, 2, 3, 4, 5}
 		}
 		for _, form := range forms {
 			var def, callee string
@@ -202,6 +202,10 @@ func TestC04(t *testing.T) {
 				// decorated: the decorator expressions are evaluated before the defaults, and the function object they get is complete
 				def = "def ident(fn):\n    return fn\n@ident\n@ident\ndef f(" + s.params() + "):\n    return " + s.ret() + "\n"
 				callee = "f"
+			case 5:
+				// every parameter is captured by an inner scope: the arguments are bound into cells
+				def = "def f(" + s.params() + "):\n    return (lambda: " + s.ret() + ")()\n"
+				callee = "f"
 			default:
 				// decorated by a wrapper that forwards *a, **k
 				def = "def fwd(fn):\n    def w(*a, **k):\n        return fn(*a, **k)\n    return w\n@fwd\ndef f(" + s.params() + "):\n    return " + s.ret() + "\n"
@@ -216,7 +220,7 @@ func TestC04(t *testing.T) {
 			if err != nil {
 				r.Infra("%v", err)
 			}
-			r.Class([]string{"def", "method", "lambda", "decorated-def", "forwarding-decorator"}[form])
+			r.Class([]string{"def", "method", "lambda", "decorated-def", "forwarding-decorator", "parameters-in-cells"}[form])
 			for _, cl := range calls {
 				r.Count(fmt.Sprintf("%d:%s|%s", form, s.params(), cl), c04NT(cl))
 			}
@@ -277,6 +281,15 @@ func c04Methods() []*py.Method {
 		}, 0, ""),
 		py.MustNewMethod("f_none", func(self py.Object) (py.Object, error) {
 			return py.Tuple{c04Self(self), py.Tuple{}, py.None}, nil
+		}, 0, ""),
+		// a native function that binds its arguments with a keyword list, as the builtins do
+		py.MustNewMethod("f_parse", func(self py.Object, args py.Tuple, kwargs py.StringDict) (py.Object, error) {
+			var a py.Object
+			var b, c py.Object = py.String("B"), py.String("C")
+			if err := py.ParseTupleAndKeywords(args, kwargs, "O|OO:f_parse", []string{"a", "b", "c"}, &a, &b, &c); err != nil {
+				return nil, err
+			}
+			return py.Tuple{a, b, c}, nil
 		}, 0, ""),
 		py.MustNewMethod("f_one", func(self py.Object, a py.Object) (py.Object, error) {
 			return py.Tuple{c04Self(self), py.Tuple{a}, py.None}, nil
@@ -402,7 +415,71 @@ func c04GoExpect(fn, route string, c c04GoCall) string {
 	return "t[" + encStr(recv) + ",t[" + strings.Join(args, ",") + "]," + kw + "]"
 }
 
+// c04GoParse: a Go callable binding through py.ParseTupleAndKeywords against the Python def of the same signature (run by CPython)
+func c04GoParse(r *Run) {
+	var calls []string
+	for np := 0; np <= 4; np++ {
+		for mask := 0; mask < 16; mask++ {
+			for _, star := range []string{"", "**{'b': 9}", "*(7,)", "**{}"} {
+				var args []string
+				for i := 0; i < np; i++ {
+					args = append(args, fmt.Sprint(i+1))
+				}
+				for bit, n := range []string{"a", "b", "c", "z"} {
+					if mask&(1<<bit) != 0 {
+						args = append(args, fmt.Sprintf("%s=%d", n, 50+bit))
+					}
+				}
+				if star != "" {
+					if strings.HasPrefix(star, "*(") {
+						// positional unpacking goes before the keywords
+						args = append([]string{star}, args...)
+						if np > 0 {
+							continue
+						}
+					} else {
+						args = append(args, star)
+					}
+				}
+				if star == "**{'b': 9}" && mask&2 != 0 {
+					continue // a repeated keyword is rejected when the call is evaluated, before binding
+				}
+				calls = append(calls, strings.Join(args, ", "))
+			}
+		}
+	}
+	var sb strings.Builder
+	sb.WriteString(c04Prelude + "try:\n    import verifmod\n    f_parse = verifmod.f_parse\nexcept ImportError:\n    def f_parse(a, b='B', c='C'):\n        return (a, b, c)\n")
+	for _, cl := range calls {
+		sb.WriteString("c(lambda: f_parse(" + cl + "))\n")
+	}
+	d, err := PyDiff(sb.String(), PyDiffOpts{Vars: c04Vars})
+	if err != nil {
+		r.Infra("%v", err)
+	}
+	r.Class("go:f_parse:keyword-list")
+	for _, cl := range calls {
+		r.Count("go:f_parse("+cl+")", true)
+	}
+	r.Sample("go:f_parse", "verifmod.f_parse("+calls[len(calls)/2]+") against def f_parse(a, b='B', c='C')")
+	if d.Sig != "" {
+		cl := "?"
+		if d.Index >= 0 && d.Index < len(calls) {
+			cl = calls[d.Index]
+		}
+		kind := "value"
+		if d.Expected == encStr("TypeError") {
+			kind = "accepts-bad-call"
+		} else if d.Actual == encStr("TypeError") {
+			kind = "rejects-good-call"
+		}
+		prog := c04Prelude + "try:\n    import verifmod\n    f_parse = verifmod.f_parse\nexcept ImportError:\n    def f_parse(a, b='B', c='C'):\n        return (a, b, c)\nc(lambda: f_parse(" + cl + "))\n"
+		r.Mismatch(&Case{Kind: "pydiff", Sig: "go:f_parse:" + kind + ":" + d.Sig, Program: prog, Vars: c04Vars, Expected: d.Expected, Actual: d.Actual, Detail: "f_parse(" + cl + ")"})
+	}
+}
+
 func c04Go(r *Run) {
+	c04GoParse(r)
 	calls := c04GoCalls()
 	setup := func(ctx py.Context, mod *py.Module) {
 		mod.Globals["VerifObj"] = c04ObjType
